@@ -21,6 +21,7 @@ def dispatch (cmd : String) (args : List Sexp) : Option String :=
   | "hoist.place" => Driver.Rename.hoistPlace args
   | "rename.assign" => Driver.Rename.assignCmd args
   | "ministring" => Driver.Strings.ministring args
+  | "shebang" => Driver.Strings.shebang args
   | "strlex" => Driver.Strings.strlex args
   | "esc.violations" => Driver.Strings.escViolations args
   | "fold" => Driver.Fold.fold args
